@@ -673,6 +673,16 @@ func (x *c02ctx) discipline(fn *ssa.Function, w, r ssa.Value, inG func(ssa.Instr
 			if isDeleg[in] || (inG != nil && inG(in)) {
 				return
 			}
+			// r.Header.Del / Set / Add (and the other mutators of a header map reached from r)
+			if g := staticCallee(t); g != nil && len(t.Common().Args) > 0 {
+				switch g.String() {
+				case "(net/http.Header).Del", "(net/http.Header).Set", "(net/http.Header).Add",
+					"(net/textproto.MIMEHeader).Del", "(net/textproto.MIMEHeader).Set", "(net/textproto.MIMEHeader).Add":
+					if ap := accessPath(t.Common().Args[0]); ap.Root == r && len(ap.Fields) > 0 {
+						bad = append(bad, c02finding{"request-mutated", p.InstrPos(in), "the request is modified (" + ap.FieldNames() + " through " + g.Name() + ") before it is handed to the masquerade delegate: the delegate does not answer the request the peer sent"})
+					}
+				}
+			}
 			if name, _, ok := x.sinkShape(t); ok {
 				bad = append(bad, c02finding{"foreign-writer", p.InstrPos(in), name + " is not given exactly the ResponseWriter and Request this function received (wrapped, replaced, or started with go/defer)"})
 			}
